@@ -171,6 +171,47 @@ func ruleGossipMark(c *Ctx) {
 				c.ok(key, mc.Pos(), "only ACCEPT is reachable after the mark")
 			}
 		}
+		// (1b) the key marked is the key that was looked up
+		{
+			defs := singleDefs(info, g.fd.Body)
+			resolveArgs := func(call *ast.CallExpr) string {
+				var parts []string
+				for _, a := range call.Args {
+					e := ast.Unparen(a)
+					if id, ok := e.(*ast.Ident); ok {
+						if d, ok := defs[info.Uses[id]]; ok && d.n == 1 {
+							e = d.rhs
+						}
+					}
+					parts = append(parts, strings.ReplaceAll(types.ExprString(e), " ", ""))
+				}
+				return strings.Join(parts, ", ")
+			}
+			seenArgs := map[string]string{}
+			ast.Inspect(g.fd.Body, func(m ast.Node) bool {
+				if call, ok := m.(*ast.CallExpr); ok {
+					if sel, ok := call.Fun.(*ast.SelectorExpr); ok && strings.HasPrefix(sel.Sel.Name, "Seen") {
+						if _, isI := info.TypeOf(sel.X).Underlying().(*types.Interface); isI {
+							seenArgs[strings.TrimPrefix(sel.Sel.Name, "Seen")] = resolveArgs(call)
+						}
+					}
+				}
+				return true
+			})
+			for _, mc := range markCalls {
+				name := strings.TrimPrefix(mc.Fun.(*ast.SelectorExpr).Sel.Name, "Mark")
+				sa, ok := seenArgs[name]
+				if !ok {
+					continue
+				}
+				key := fn + ".Mark" + name + ".key"
+				if ma := resolveArgs(mc); ma != sa {
+					c.bad(key, mc.Pos(), "the seen-cache is consulted with (%s) but marked with (%s): the duplicate check can never match what was recorded", sa, ma)
+				} else {
+					c.ok(key, mc.Pos(), "looked up and marked with the same key (%s)", sa)
+				}
+			}
+		}
 		// (2) every ACCEPT is cut by the Mark of each Seen key
 		for _, k := range sortedKeys(seens) {
 			mname := "Mark" + k
